@@ -247,11 +247,12 @@ def run(prog, ctx):
                         if k.startswith("call ") or k in env:
                             v = None
                             break
-                        env[k] = 11
+                        env[k] = 40000 if k.endswith("num_coupons") else (3 if k.endswith("window_offset") else 11)
                     except (TypeError, IndexError, ZeroDivisionError):
                         v = None
                         break
-                if v is None or isinstance(v, tuple) or not sym.contains(c, lambda t: t[0] == "call" and t[1].rsplit("::", 1)[-1] in ("determine_flavor", "flavor")):
+                if v is None or isinstance(v, tuple) or not sym.contains(c, lambda t: (t[0] == "call" and t[1].rsplit("::", 1)[-1] in ("determine_flavor", "flavor", "determine_correct_offset"))
+                                                                                  or (t[0] == "field" and str(t[2]) in ("num_coupons", "window_offset"))):
                     continue
                 if (tv[0] == "eq" and v != tv[1]) or (tv[0] == "ne" and v in tv[1]):
                     dead = True
